@@ -79,21 +79,31 @@ def signature(scn, kind, spelling):
         "ok" if scn["out"]["ok"] else scn["out"]["err"])
 
 
+def kind_variants(scn):
+    i = scn["in"]
+    nd = len(i["a"]["dims"])
+    if i["mode"] == "position":
+        return [["i"] * nd, ["s"] * nd]
+    if i["tol"]:
+        return [["i"] * nd, ["f"] * nd]
+    return [["i"] * nd, ["f"] * nd, ["s"] * nd]
+
+
 def replay(scn):
+    return replay_take(scn, kind_variants(scn), signature)
+
+
+def replay_take(scn, variants, signature):
     i = scn["in"]
     a_abs = i["a"]
-    nd = len(a_abs["dims"])
     mode = i["mode"]
     exp = scn["out"]
     viol = []
     calls = 0
-    kinds_variants = ["i", "f"] if i["tol"] else ["i", "f", "s"]
-    if mode == "position":
-        kinds_variants = ["i", "s"]
-    for vi, kind in enumerate(kinds_variants):
+    for vi, kinds in enumerate(variants):
         codec = A.LabelCodec()
-        kinds = [kind] * nd
-        tol = codec.tol(i["tol"][0], kind) if i["tol"] else None
+        kind = "".join(kinds)
+        tol = codec.tol(i["tol"][0], kinds[0]) if i["tol"] else None
         for si, sp in enumerate(read_spellings(mode, i["idxs"], a_abs["dims"], tol)):
             form = (si + vi) % 2
             tup = index_tuple(i["idxs"], kinds, codec, mode, form)
@@ -126,7 +136,8 @@ def replay(scn):
                 else:
                     try:
                         act = A.project(res, codec)
-                        e2 = dict(exp["val"], kinds=[kind] * len(exp["val"]["dims"]))
+                        ek = [kinds[a_abs["dims"].index(d)] for d in exp["val"]["dims"]]
+                        e2 = dict(exp["val"], kinds=ek)
                         what = A.compare(e2, act) or None
                     except A.Unprojectable as e:
                         what = "result not projectable: %s" % e
@@ -136,5 +147,5 @@ def replay(scn):
                 elif not isinstance(err, IndexError):
                     what = "expected %s, got %s: %s" % (exp["err"], type(err).__name__, str(err)[:200])
             if what:
-                viol.append(dict(what=what, sig=signature(scn, kind, sp), variant="kind=%s spelling=%s form=%d" % (kind, sp, form)))
+                viol.append(dict(what=what, sig=signature(scn, kind, sp), variant="kinds=%s spelling=%s form=%d" % (kind, sp, form)))
     return dict(violations=viol, calls=calls)
